@@ -452,6 +452,24 @@ func c19StateCheck(c scriptCase) (fs []rep.Finding) {
 			return
 		}
 		plain, with := run(nil), run(&recorder{})
+		// the same State value resumed twice (not a copy): the second run is the first one again
+		shared := copyState(st)
+		twice := func() string {
+			res := ""
+			if f := rep.Guard(func() {
+				rt, amount := c.ctx()
+				tx := toLib(rt)
+				prev := &bt.Output{Satoshis: amount, LockingScript: libScript(c.Lock)}
+				res = errText(interpreter.NewEngine().Execute(interpreter.WithTx(tx, c.idx(), prev), interpreter.WithFlags(scriptflag.Flag(c.Flags)), interpreter.WithState(shared), interpreter.WithDebugger(&recorder{})))
+			}); f != nil {
+				res = "panic: " + f.Key
+			}
+			return res
+		}
+		if a, b := twice(), twice(); a != b {
+			fs = append(fs, rep.F("resumed-state-consumed|"+era(c.Flags), fmt.Sprintf("the same captured state (before step %d) resumed twice: first %s, then %s", k, a, b)))
+			break
+		}
 		if plain != with {
 			fs = append(fs, rep.F("verdict-changes-with-debugger|resumed-from-state|"+era(c.Flags), fmt.Sprintf("execution resumed (WithState) from the state before step %d: without debugger %s, with debugger %s", k, plain, with)))
 			break
